@@ -132,7 +132,15 @@ func init() {
 			seeds = []string{"empty", "nested", "inline"}
 		}
 		cs := []apix.Cfg{{PageSize: 1024, Freelist: "array"}, {PageSize: 1024, Freelist: "hashmap", NoFreelistSync: true}}
-		return mk("c15-nested", seeds, cs, n, 0, seqNestedAlphabet([]string{"p", "q"}, depth), compactBoundary(exh))
+		scs := mk("c15-nested", seeds, cs, n, 0, seqNestedAlphabet([]string{"p", "q"}, depth), compactBoundary(exh))
+		if tier != "thorough" {
+			for _, sc := range scs {
+				if sc.Cfg.NoFreelistSync {
+					sc.MaxOps = n - 1 // quick: the sources without a persisted freelist one operation shallower
+				}
+			}
+		}
+		return scs
 	}
 	hx.Registry["c15-seeds"] = func(tier string) []*hx.Scope {
 		// every seed state itself (one trivial commit on top), with every limit from 0 to total+1
